@@ -50,6 +50,11 @@ inductive Sys where
   | close (fd : Nat)
   | rename (a b : Path)
   | unlink (a : Path)
+  /-- `fsync` of the directory: every directory operation completed so far becomes
+  durable.  No effect on what a running system sees; it only moves the point
+  from which the crash models of `AGH/Spec/Crash.lean` may lose operations.
+  (renameio never issues it; it is here so that the alphabet can say it.) -/
+  | fsyncDir
   deriving DecidableEq, Repr
 
 inductive Errno where
@@ -127,6 +132,7 @@ def step (s : FS) : Sys → Except Errno FS
     match s.names a with
     | none => .error .enoent
     | some _ => .ok { s with names := upd s.names a none }
+  | .fsyncDir => .ok s
 
 /-- A program is a list of syscalls; the Go code returns at the first error, so
 a run stops at the first failing syscall.  `(state, completed)`. -/
